@@ -4,8 +4,10 @@
 // run executes it once without faults; the journal of the verification storage yields the N storage calls of the
 // request under test. Then the scenario is rebuilt from scratch and re-run once for every (call position j in 1..N) x
 // (fault kind in error | deadline | partial-fill-then-error | *oidc.Error server_error | plain error wrapping an *oidc.Error |
-// the failure sentinels the storage interface documents for the method at that position) and once per distinct storage
-// method M x (error | deadline | oidc | oidc-wrapped | documented sentinels of M) with every call of M failing: exhaustive
+// every library sentinel / specially treated error value a storage may return or pass on: op.ErrInvalidRefreshToken plain and
+// wrapped, op.ErrDuplicateUserCode, oidc.ErrKeyNone, context.Canceled, wrapped context.DeadlineExceeded, *oidc.Error
+// access_denied / slow_down / authorization_pending) and once per distinct storage
+// method M x (error | deadline | oidc | oidc-wrapped | documented try-again sentinels of M) with every call of M failing: exhaustive
 // over the positions of each scenario. Every faulted response is judged by an oracle written from the statement (no panic;
 // an error answer; no code / token / device code / user code / claims / active:true).
 package c10
@@ -637,21 +639,37 @@ func flushStats(rec *vkit.Recorder) {
 var (
 	faultKinds      = []string{"error", "deadline", "partial", "oidc", "oidc-wrapped"}
 	methodWideKinds = []string{"error", "deadline", "oidc", "oidc-wrapped"}
-	// sentinelKinds: error values that the storage interface documents as a *failure* of that very method (injected only
-	// there: no real storage returns them from another method). op.ErrDuplicateUserCode = StoreDeviceAuthorization did not
-	// store the authorization. Deliberately absent: op.ErrInvalidRefreshToken from GetRefreshTokenInfo - that is the
-	// method's regular answer "this is not a refresh token", not a failure.
+	// libSentinelKinds: the exported error values of pkg/op, pkg/oidc and context that the library itself gives a special
+	// treatment somewhere (errors.Is / errors.As branches: op.ErrInvalidRefreshToken, op.ErrDuplicateUserCode, oidc.ErrKeyNone,
+	// context.Canceled, a wrapped context.DeadlineExceeded, *oidc.Error values of types that are legitimate answers elsewhere:
+	// access_denied, slow_down, authorization_pending), plain and wrapped with fmt.Errorf("%w"). A storage may hand back - or
+	// pass on from a layer below - any of them from ANY call (a rotated refresh token met at CreateAccessAndRefreshTokens, a
+	// cancelled context, a missing key ...), so every one is injected at every call position of every flow: whatever the
+	// value, the call failed and the statement demands an error answer without material.
+	libSentinelKinds = vkit.SentinelFaultKinds
+	// sentinelKinds: error values that the storage interface documents as a *try-again failure* of that very method
+	// (op.ErrDuplicateUserCode = StoreDeviceAuthorization did not store the authorization): in addition to the single-position
+	// runs they are injected with every call of the method failing, and only for them the tolerated region below exists.
 	sentinelKinds = map[string][]string{"StoreDeviceAuthorization": {"dup-user-code"}}
+	// regularAnswers: error values that are the method's documented regular answer, not a failure of the call:
+	// op.ErrInvalidRefreshToken from GetRefreshTokenInfo = "this is not a refresh token" (revocation then tries the token as
+	// an access token). Never injected there.
+	regularAnswers = map[string][]string{"GetRefreshTokenInfo": {"invalid-refresh", "invalid-refresh-wrapped"}}
 )
 
-func isSentinel(kind string) bool {
-	for _, ks := range sentinelKinds {
-		if has(ks, kind) {
-			return true
+// kindsAt: the fault kinds injected at a single call position whose method is m (base kinds, then every library sentinel
+// except the method's regular answers).
+func kindsAt(m string) []string {
+	out := append([]string{}, faultKinds...)
+	for _, k := range libSentinelKinds {
+		if !has(regularAnswers[m], k) {
+			out = append(out, k)
 		}
 	}
-	return false
+	return out
 }
+
+func isSentinel(kind string) bool { return has(libSentinelKinds, kind) }
 
 // backed: the success answer r is a genuine one, i.e. what it hands out is what the storage of this execution holds.
 // Only used to delimit the tolerated region "documented try-again sentinel at ONE position, the library tried again, the
@@ -772,6 +790,12 @@ func run(c Case) (res *vkit.Result) {
 			res.Label("grey:partial-fault-is-the-regular-not-a-refresh-token-answer")
 			return
 		}
+		if has(regularAnswers[method], f.Kind) {
+			// (only if the re-run took another path than the baseline: kindsAt already leaves these out)
+			count("grey_regular_answer_injected", 1)
+			res.Label("grey:injected-value-is-the-regular-answer-of-the-method")
+			return
+		}
 		count("faulted_"+method, 1)
 		cell := c.Flow + ":" + c.Router + ":" + method
 		desc := fmt.Sprintf("%s/%s: storage call %d (%s) failing with %q [%s]", c.Flow, c.Router, pos, method, f.Kind, where)
@@ -781,6 +805,13 @@ func run(c Case) (res *vkit.Result) {
 			return
 		}
 		if isSentinel(f.Kind) {
+			count("libsentinel_runs_at_"+method, 1)
+			if !labelled["libsentinel:"+method] {
+				labelled["libsentinel:"+method] = true
+				res.Label("libsentinel-at:" + method)
+			}
+		}
+		if has(sentinelKinds[method], f.Kind) {
 			count("sentinel_runs_"+method+"_"+f.Kind, 1)
 			if !labelled["sentinel:"+method+"/"+f.Kind] {
 				labelled["sentinel:"+method+"/"+f.Kind] = true
@@ -822,7 +853,7 @@ func run(c Case) (res *vkit.Result) {
 	}
 
 	for j := 1; j <= n; j++ {
-		for _, k := range append(append([]string{}, faultKinds...), sentinelKinds[base.calls[j-1].Method]...) {
+		for _, k := range kindsAt(base.calls[j-1].Method) {
 			judge(vkit.Fault{Req: reqNo, Call: j, Kind: k}, "single")
 			info.Triples++
 			count("triples", 1)
@@ -850,9 +881,10 @@ var prop = vkit.Prop[Case]{
 	ID: "C10",
 	Rule: "case = scenario (router x 15 flows x client kind x opaque/JWT access token x signing alg x storage capability shape incl. extras x flow variant: scopes, response type/mode, PKCE, userinfo assertion, " +
 		"id_token_hint, request object, subject/actor/requested token type, revoked token kind/hint, logout parameters); run = fault-free baseline, then the scenario rebuilt and re-run for EVERY storage-call position j of the request under test x " +
-		"{error, context.DeadlineExceeded, partial-fill-then-error, *oidc.Error server_error, plain error wrapping an *oidc.Error, + the failure sentinel documented for the method at j: op.ErrDuplicateUserCode at StoreDeviceAuthorization} " +
-		"and for every distinct method x {error, deadline, oidc, oidc-wrapped, + its documented sentinels} with ALL its calls failing, retries included (extra keys: triples, triples_kind_*, triples_nontrivial = j>=2 or partial, positions, method_wide_runs, method_wide_kind_*, sentinel_runs_*); " +
-		"forbidden material includes device_code / user_code; a single-position sentinel fault that the library answers by calling the same method again is grey only if the success is backed by the storage (grey_sentinel_retried_genuine_success); " +
+		"{error, context.DeadlineExceeded, partial-fill-then-error, *oidc.Error server_error, plain error wrapping an *oidc.Error, + every library sentinel a storage may return or pass on from any call: " +
+		"op.ErrInvalidRefreshToken plain and %w-wrapped (not at GetRefreshTokenInfo, whose regular answer it is), op.ErrDuplicateUserCode, oidc.ErrKeyNone, context.Canceled, %w-wrapped context.DeadlineExceeded, *oidc.Error access_denied / slow_down / authorization_pending} " +
+		"and for every distinct method x {error, deadline, oidc, oidc-wrapped, + its documented sentinels} with ALL its calls failing, retries included (extra keys: triples, triples_kind_*, triples_nontrivial = j>=2 or partial, positions, method_wide_runs, method_wide_kind_*, sentinel_runs_*, libsentinel_runs_at_<method>; labels libsentinel-at:<method>); " +
+		"forbidden material includes device_code / user_code; a single-position fault with the try-again sentinel documented for that method (op.ErrDuplicateUserCode at StoreDeviceAuthorization) that the library answers by calling the same method again is grey only if the success is backed by the storage (grey_sentinel_retried_genuine_success); " +
 		"non-trivial scenario = request under test makes >= 2 storage calls; distinct = normalised scenario; excluded and counted: scenarios whose fault-free baseline does not succeed (baseline_not_success)",
 	Gen: genCase,
 	Run: run,
